@@ -7,9 +7,9 @@ use std::panic::{RefUnwindSafe, UnwindSafe};
 #[cfg(not(may_verif))]
 use std::sync::atomic::{fence, AtomicUsize, Ordering};
 #[cfg(may_verif)]
-use crate::verif::atomic::AtomicUsize;
+use crate::verif::atomic::{fence, AtomicUsize};
 #[cfg(may_verif)]
-use std::sync::atomic::{fence, Ordering};
+use std::sync::atomic::Ordering;
 use std::sync::Arc;
 use std::sync::{LockResult, TryLockError, TryLockResult};
 
